@@ -323,6 +323,9 @@ public:
 	splinetable& operator=(splinetable&& other){
 		if(&other==this)
 			return(*this);
+		//give up what this table holds now, so that the table moved from is
+		//left empty rather than holding our former contents
+		release();
 		using std::swap;
 		swap(ndim,other.ndim);
 		swap(order,other.order);
